@@ -72,3 +72,10 @@ mod tests {
         ensure_send_and_sync::<hb_ot_shape_plan_t>();
     }
 }
+
+/// Verification hooks (compiled only with `--cfg rb_verif`).
+#[cfg(rb_verif)]
+#[allow(unused_imports, dead_code, missing_docs)]
+pub mod verif_hooks {
+    use super::*;
+}
